@@ -72,6 +72,27 @@ func genProxy(g *genCtx, lean string, facts map[string]interface{}) error {
 	if !found {
 		g.missing = append(g.missing, "upload pump goroutine in createConnHandler")
 	}
+	// the first forwarded message: `if err := clientStream.SendMsg(args); <cond> { return err }` outside the pump —
+	// does the condition let io.EOF (the backend has already ended the call) fall through to RecvMsg?
+	firstSendCond, firstFound := "?", false
+	if fd := g.funcs["createConnHandler"]; fd != nil {
+		ast.Inspect(fd.Body, func(n ast.Node) bool {
+			if _, isGo := n.(*ast.GoStmt); isGo {
+				return false // not the pump
+			}
+			is, ok := n.(*ast.IfStmt)
+			if !ok || is.Init == nil || firstFound {
+				return true
+			}
+			if as, ok := is.Init.(*ast.AssignStmt); ok && len(as.Rhs) == 1 && strings.HasSuffix(nodeSrc(g, as.Rhs[0]), "clientStream.SendMsg(args)") {
+				firstSendCond, firstFound = nodeSrc(g, is.Cond), true
+			}
+			return true
+		})
+	}
+	if !firstFound {
+		g.missing = append(g.missing, "first clientStream.SendMsg(args) in createConnHandler")
+	}
 	var sb strings.Builder
 	sb.WriteString(genHeader)
 	sb.WriteString("namespace Larking.Gen.Proxy\n\n")
@@ -81,6 +102,7 @@ func genProxy(g *genCtx, lean string, facts map[string]interface{}) error {
 	}
 	fmt.Fprintf(&sb, "/-- isStreamError: the switch's case values, what those cases return, what everything else returns. -/\ndef streamErrorCases : List String := [%s]\ndef streamErrorCaseResult : String := %q\ndef streamErrorDefault : String := %q\n\n", strings.Join(qs, ", "), caseRes, defRes)
 	fmt.Fprintf(&sb, "/-- the upload pump half-closes the backend stream after its forwarding loop (reached also when the loop is never entered) / inside it. -/\ndef closeSendAfterLoop : Bool := %v\ndef closeSendInLoop : Bool := %v\n\n", closeAfterLoop, closeInLoop)
+	fmt.Fprintf(&sb, "/-- the condition under which the error of the first forwarded SendMsg ends the call. -/\ndef firstSendErrorCond : String := %q\n\n", firstSendCond)
 	sb.WriteString("end Larking.Gen.Proxy\n")
 	facts["proxy"] = map[string]interface{}{"streamErrorCases": cases, "caseResult": caseRes, "default": defRes, "closeSendAfterLoop": closeAfterLoop}
 	return writeIfChanged(filepath.Join(lean, "Larking/Gen/Proxy.lean"), sb.String())
